@@ -38,6 +38,9 @@ const (
 	// because two coincident intersection points might have errors in
 	// opposite directions.
 	intersectionMergeRadius = 2 * intersectionError
+
+	// minNormalFloat64 is the smallest positive normalized float64 (C++ DBL_MIN).
+	minNormalFloat64 = 0x1p-1022
 )
 
 // A Crossing indicates how edges cross.
@@ -343,16 +346,15 @@ func intersectionStableSorted(a0, a1, b0, b1 Point) (Point, bool) {
 	// Finally we normalize the result, compute the corresponding error, and
 	// check whether the total error is acceptable.
 
-	// TODO(rsned): C++ checks Norm2 > some small amount to prevent precision loss.
-	// xLen2 := x.Norm2()
-	// if xLen2 < math.SmallestNonzeroFloat64 {
-	//         // If x.Norm2() is less than the minimum normalized value of T, xLen might
-	//         // lose precision and the result might fail to satisfy IsUnitLength().
-	//         // TODO(rsned): Implement RobustNormalize().
-	//         return pt, false
-	// }
+	xLen2 := x.Norm2()
+	if xLen2 < minNormalFloat64 {
+		// If x.Norm2() is less than the minimum normalized value of float64, xLen
+		// might lose precision (or underflow to zero) and the result might fail
+		// to be unit length. The exact method handles this case.
+		return pt, false
+	}
 
-	xLen := x.Norm()
+	xLen := math.Sqrt(xLen2)
 	maxError := intersectionError
 	if err > (float64(maxError)-tErr)*xLen {
 		return pt, false
